@@ -56,6 +56,14 @@ def valuesStep (st : ValState) (ts : List String) : ValState × List String :=
     match pEntries rest with
     | some (es, []) => let r := TVals.ofList es; ({ st with cur := r }, ["st " ++ showEntries r])
     | _ => (st, ["bad-op"])
+  | "v" :: "mapde" :: rest =>
+    -- the same map handed over by a deserializer that reports its exact length (not JSON text)
+    match pEntries rest with
+    | some (es, []) =>
+      match decodeVals 64 (.obj (es.map fun kv => (kv.1, encodeVal kv.2))) with
+      | some r => ({ st with cur := r }, ["st " ++ showEntries r])
+      | none => (st, ["st err"])
+    | _ => (st, ["bad-op"])
   | "v" :: "json" :: rest =>
     match pEntries rest with
     | some (es, []) =>
@@ -110,6 +118,17 @@ def wireStep (st : ValState) (ts : List String) : ValState × List String :=
   match ts with
   | ["__end__"] => (st, [])
   | "case" :: _ => ({}, [" ".intercalate ts])
+  | "w" :: "enc" :: "evc" :: rest =>
+    -- values assembled through `FromIterator` from entries that may repeat a name
+    match pEvent rest with
+    | some (e, []) =>
+      let e' := match e with
+        | .newSpan id p mt vs => Event.newSpan id p mt (TVals.ofList vs)
+        | .valuesRecorded id vs => Event.valuesRecorded id (TVals.ofList vs)
+        | .newEvent mt p vs => Event.newEvent mt p (TVals.ofList vs)
+        | e => e
+      (st, ["j " ++ showJson (encodeEvent e')])
+    | _ => (st, ["bad-op"])
   | "w" :: "enc" :: "ev" :: rest =>
     match pEvent rest with
     | some (e, []) => (st, ["j " ++ showJson (encodeEvent e)])
